@@ -125,7 +125,8 @@ func c03STUN(in []byte) c03lib.Outcome {
 		if msg == nil || !addr.IsValid() || addr.Port() == 0 {
 			return c03lib.Outcome{Class: cls, Clause: "STUN response accepted without a usable mapped address", Detail: addr.String()}
 		}
-		if len(orig) < 20 || orig[0] != 0x01 || orig[1] != 0x01 {
+		// the 14-bit STUN message type (RFC 5389 section 6; the two top bits are not part of it)
+		if len(orig) < 20 || orig[0]&0x3f != 0x01 || orig[1] != 0x01 {
 			return c03lib.Outcome{Class: cls, Clause: "something that is not a binding success response accepted"}
 		}
 		if addr.Addr().Is4() {
@@ -179,7 +180,7 @@ func c03From(b byte) net.Addr {
 
 // reference: is this datagram taken out of the QUIC stream by the demultiplexer?
 func c03Diverted(data []byte, from net.Addr, attempts int) bool {
-	if len(data) >= 20 && data[0] == 0x01 && data[1] == 0x01 {
+	if len(data) >= 20 && data[0]&0x3f == 0x01 && data[1] == 0x01 {
 		if _, _, err := parseSTUNBindingResponse(c03lib.Fresh(data)); err == nil {
 			return true
 		}
